@@ -264,8 +264,9 @@ def correspondence(ctx):
         al, be, ga = [float(x) for x in r]
         ma, mbeta, mg = parse_f(mb[1])
         V0, V1 = ref_su2(al, be, ga), ref_su2(ma, mbeta, mg)
-        # the 4pi branch of gamma is decided by the sign of Re(exp(i(al+ga)/2) a) = +-cos(beta/2): ill-conditioned only at beta ~ pi
-        d = np.abs(V0 - V1).max() if be < PI - 1e-3 else min(np.abs(V0 - V1).max(), np.abs(V0 + V1).max())
+        # the 4pi branch of gamma is decided by the sign of Re(e^(i(al+ga)/2) a - e^(i(al-ga)/2) b) = +-(cos(beta/2)+sin(beta/2)), |.|>=1:
+        # well conditioned everywhere, so model and implementation must agree including the sign of U
+        d = np.abs(V0 - V1).max()
         # x22 = |a|^2-|b|^2 is recomputed by the model from (a,b): one ulp there moves arccos by ~1e-8 next to +-1
         thr = branch_of_beta(be) != 'generic'
         ok = branch_of_beta(be) == mb[0] and (abs(be - mbeta) <= 1e-12 or abs(math.cos(be) - math.cos(mbeta)) <= 1e-15) and d <= (2e-7 if thr else 1e-9)
@@ -446,12 +447,14 @@ def probe(ctx):
                     D1, D2, D12 = G.get_su2_irrep(j2, U1), G.get_su2_irrep(j2, U2), G.get_su2_irrep(j2, U1 @ U2)
                     return np.abs(D1 @ D2 - D12).max()
                 r = guarded(f)
-                if isinstance(r, str) or r > 1e-9:
-                    ctx.fail('su2-sign-at-beta-pi/irrep-hom', f'get_su2_irrep(j2={j2}): D(U1 U2) != D(U1) D(U2) for axis-aligned U (su2_to_angle loses the sign of U when U[0,0]=0): {r}',
+                # |U00|^2-|U01|^2 rounds to 1-ulp, arccos of that is ~1.5e-8: inside the threshold region, accuracy ~zero_eps*(j2+1)
+                if isinstance(r, str) or r > 1e-6 * (j2 + 1):
+                    ctx.fail('irrep-hom-axis-aligned', f'get_su2_irrep(j2={j2}): D(U1 U2) != D(U1) D(U2) for axis-aligned U (beta in {{0, pi}}): {r}',
                              dict(op='irrep-hom', j2=j2, U1=[[x.real, x.imag] for x in U1.reshape(-1)], U2=[[x.real, x.imag] for x in U2.reshape(-1)]))
                 else:
                     ctx.probe_ok(('irrep-ax', j2))
     # j2=1 is the defining representation, also at U[0,0]=0 (beta=pi), where the 4pi branch of gamma cannot be read off U[0,0]
+    # (repaired in /repo 7f0ceda; before that get_su2_irrep(1,[[0,1],[-1,0]]) returned -U)
     for U in [np.array([[0, 1], [-1, 0]], dtype=np.complex128), np.array([[0, -1], [1, 0]], dtype=np.complex128), np.array([[0, 1j], [1j, 0]])]:
         r = guarded(lambda: np.abs(G.get_su2_irrep(1, U) - U).max())
         if isinstance(r, str) or r > 1e-9:
